@@ -140,6 +140,7 @@ func replay(path string) int {
 		startChurn()
 		atomic.StoreInt32(&churnActive, 1)
 	}
+	setOptSpelling(rep.CaseIdx)
 	fmt.Printf("replaying %s tier=%s seed=%d case=%d\n", def.ID, rep.Tier, rep.Seed, rep.CaseIdx)
 	runCaseRecovered(def, ctx, rep.CaseIdx)
 	if ctx.nviol > 0 {
